@@ -1112,7 +1112,7 @@ class Prelude:
         t = v['type']; q = t['qualType']
         ct = self.ctype(t)
         m = re.match(r'^(.*?)\(\*(const)?\)\s*\((.*)\)$', ct)
-        if m and name.startswith('PlatformSpecific'):
+        if m and (name.startswith('PlatformSpecific') or name.startswith('GetPlatformSpecific')):
             return '%s %s(%s); /* R15 seam */' % (m.group(1).strip(), name, m.group(3) or 'void'), True
         init = [c for c in v.get('inner', []) if c.get('kind') not in ('FullComment',)]
         txt = self.decl(t, name)
